@@ -24,11 +24,13 @@ def bounds(tier):
         return {"dense": "values 0..5, 1..6 items, 1..7 bins", "ilp": "values 0..4, 1..5 items, 1..4 bins",
                 "named formats": "dict(str names), dict(int names), names+valueof (unique names; one name per distinct value, repeated; numpy array of ids) on 1..4 items",
                 "big": "values {0, 1, 2**24+1, 2**31+1, 2**32+3, 2**40+5}, 1..4 items, 1..4 bins, all partitioners and all cg configurations",
+                "wide-search": "snp/rnp/ckk/cg on all multisets of 7 items over 1..6 (k=3..5), every 6th chunk of the 8-item multisets over 0..10 (k=4), and 9..10 items over 1..3 given as a dict (k=4..5)",
                 "count-sweep": "every numbins k in 1..24 with k-1, k, k+1, 2k+1 items over {1,2,3}: greedy/roundrobin/multifit/kk/cg x 3 objectives (+cbldm k=2, snp where items <= k+1 and k <= 6)",
                 "long-thin": "9..15 items over {1,2}, 9..12 over {1,2,3}, 9..11 over {0,1,5} and {2,3,7}, bins {2,3,4,5,7,n,n+1}, non-sorted presentation: greedy/roundrobin/multifit/kk/cg(default switches, 3 objectives)/cbldm"}
     return {"dense": "values 0..7, 1..7 items, 1..8 bins", "ilp": "values 0..5, 1..6 items, 1..4 bins",
             "named formats": "dict(str names), dict(int names), names+valueof (unique names; one name per distinct value, repeated; numpy array of ids) on 1..5 items",
             "big": "values {0, 1, 2**24+1, 2**31+1, 2**32+3, 2**40+5}, 1..5 items, 1..4 bins, all partitioners and all cg configurations",
+            "wide-search": "snp/rnp/ckk/cg on all multisets of 7 items over 1..10 (k=3..5), of 8 items over 0..10 (k=4), and 9..10 items over 1..4 given as a dict (k=4..5)",
             "count-sweep": "every numbins k in 1..70 with k-1, k, k+1, 2k+1 items over {1,2,3}: greedy/roundrobin/multifit/kk/cg x 3 objectives (+cbldm k=2, snp where items <= k+1 and k <= 6)",
             "long-thin": "9..24 items over {1,2}, 9..16 over {1,2,3}, 9..13 over {0,1,5} and {2,3,7}, bins {2,3,4,5,7,n,n+1}, non-sorted presentation: greedy/roundrobin/multifit/kk/cg(default switches, 3 objectives)/cbldm"}
 
@@ -58,6 +60,15 @@ def tasks(tier):
         ts.append(("long-heur", ch, 0, "list"))
     for ch in spaces.chunked(scopes.count_sweep_partition(tier), 12):
         ts.append(("count-sweep", ch, 0, "list"))
+    # inputs on which the searches really iterate after an improvement (contents-keeping path)
+    for ch in scopes.chunk_multisets(range(1, 7 if q else 11), 7, 7, 40):
+        ts.append(("wide-search", ch, (3, 4, 5), "list"))
+    for ch in scopes.chunk_multisets(range(0, 11), 8, 8, 40)[:: (6 if q else 1)]:
+        ts.append(("wide-search", ch, (4,), "list"))
+    # nine and ten items with many repeated values, presented by name (two name-sets with equal values must stay distinct)
+    for n in (9, 10):
+        for ch in scopes.chunk_multisets(range(1, 4 if q else 5), n, n, 12):
+            ts.append(("wide-search", ch, (4, 5), "dict_str"))
     return ts
 
 
@@ -79,6 +90,17 @@ def _one(acc, case):
 def run_task(task):
     scope, chunk, K, fmt = task
     acc = Acc(ID, scope)
+    if scope == "wide-search":
+        for ms in chunk:
+            for k in K:
+                acc.point(nontrivial=True)
+                for algo in ("snp", "rnp", "ckk", "cg"):
+                    if algo == "ckk" and len(ms) > 8:
+                        continue
+                    kw = {"objective": "MinimizeDifference"} if algo == "cg" else {}
+                    _one(acc, {"algo": algo, "items": list(ms), "k": k, "fmt": fmt, "out": "PartitionAndSumsTuple", "kw": kw})
+        acc.sample({"scope": scope, "items": list(chunk[0]), "numbins": list(K), "format": fmt})
+        return acc
     if scope == "count-sweep":
         for items, k in chunk:
             acc.point(nontrivial=(k >= 2 and len(items) >= 2))
